@@ -88,8 +88,9 @@ def expected(d, iscsd, fs):
     return e
 
 
-def values_equal(a, b, rel=1e-12):
-    """Structural equality with a relative tolerance for floats (NaN == NaN, inf == inf)."""
+def values_equal(a, b, rel=1e-12, scale=None):
+    """Structural equality with a relative tolerance for floats (NaN == NaN, inf == inf).  `scale` (array or scalar): the size of
+    the operands the quantity is a difference of - the comparison then also allows rel*scale absolutely (cancellation)."""
     if a is None or b is None:
         return a is None and b is None
     a, b = np.asarray(a), np.asarray(b)
@@ -106,7 +107,11 @@ def values_equal(a, b, rel=1e-12):
         inf = ~fin & ~np.isnan(a)
         if inf.any() and not np.array_equal(a[inf], b[inf]):
             return False
-        return bool(np.all(np.abs(a[fin] - b[fin]) <= rel * np.abs(b[fin]) + 1e-300))
+        extra = 0.0
+        if scale is not None:
+            sc = np.broadcast_to(np.abs(np.asarray(scale, dtype=float)), a.shape)[fin]
+            extra = rel * np.where(np.isfinite(sc), sc, 0.0)
+        return bool(np.all(np.abs(a[fin] - b[fin]) <= rel * np.abs(b[fin]) + extra + 1e-300))
 
 
 def identical(a, b):
